@@ -1,0 +1,32 @@
+//go:build verif
+
+// Contracts for package searcher: compound searchers at protocol level (read by /verif/gocv).
+// Protocol level = what a caller may rely on from THIS object given that its children satisfy the
+// full Searcher contract (search/zz_verif_searcher.go): results strictly ascending, Advance lands at
+// or after the target, every call made on a child satisfies the child's precondition (forward
+// targets only), no panic. "Least match" (never skipping) is NOT claimed at this level.
+
+package searcher
+
+// cursor bookkeeping shared by the compound searchers: after a call that returned r (non-nil) the
+// cursor is at r; after nil it is done.
+//@ spec ascending(startedBefore bool, lastBefore string, r *search.DocumentMatch) bool = r == nil || !startedBefore || idKey(r.IndexInternalID) > lastBefore
+
+// ---- FilteringSearcher: the child's stream restricted to accepted matches ----
+// representation invariant: the child is never behind this searcher
+//@ spec filterInv(f *FilteringSearcher) bool = f.child != nil && f.accept != nil && implies(f.started, f.child.started && f.child.last >= f.last) && implies(f.done, f.child.done)
+
+//@ func FilteringSearcher.Next
+//@   props C08
+//@   mode int
+//@   requires f != nil && filterInv(f) && ctx != nil && ctx.DocumentMatchPool != nil
+//@   modifies f.started, f.last, f.done, f.child.started, f.child.last, f.child.done, search.DocumentMatch.IndexInternalID, search.DocumentMatch.Score, search.DocumentMatchPool.avail, mem(*search.DocumentMatch)
+//@   at return: ghost f.started = f.started || (result1 == nil && result0 != nil)
+//@   at return: ghost f.last = ite(result1 == nil && result0 != nil, idKey(result0.IndexInternalID), f.last)
+//@   at return: ghost f.done = f.done || (result1 == nil && result0 == nil)
+//@   ensures implies(result1 == nil, filterInv(f))
+//@   ensures implies(result1 == nil && result0 != nil, ascending(old(f.started), old(f.last), result0) && f.last == idKey(result0.IndexInternalID) && f.started)
+//@   ensures implies(result1 == nil && result0 == nil, f.done)
+//@   loop 0: invariant f.child != nil && f.accept != nil && ctx.DocumentMatchPool != nil && f.started == old(f.started) && f.last == old(f.last) && f.done == old(f.done)
+//@   loop 0: invariant implies(err == nil && next != nil, f.child.started && f.child.last == idKey(next.IndexInternalID) && unconsumed(old(f.child.started), old(f.child.last), f.child.last) && !f.child.done)
+//@   loop 0: invariant implies(err == nil && next == nil, f.child.done)
